@@ -97,6 +97,7 @@ def correspondence(ctx, violations, known_hits):
     r = dbgcommon.run_dbg_cases(ctx, cases, tags, violations, profiles, aux=AUX,
                                 note="model: assembly shows the slice of the parser's span for that address (C17_assembly); labels resolve to origin + line - 1 (C17_label)")
     real = dbgcommon.cli_cross(ctx, specs, violations, limit=(30 if ctx.tier == "quick" else 600))
+    r["evaluations"] += real.get("sessions", 0)
     ctx.cleanup()
     return dbgcommon.coverage(r,
         "fixed programs (first statement at byte 0 without operands, operand-less after operand-ful, .stringz/.blkw/.fill incl. empty "
